@@ -23,3 +23,43 @@ def deal_text(hands, first):
 
 MANDATORY_EXPORT_TAGS = ['Event', 'Site', 'Date', 'Board', 'West', 'North', 'East', 'South', 'Dealer',
                          'Vulnerable', 'Deal', 'Scoring', 'Declarer', 'Contract', 'Result']
+
+
+VUL_SPELLINGS = {'None': ['None', 'Love', '-'], 'NS': ['NS'], 'EW': ['EW'], 'Both': ['Both', 'All']}
+
+
+def render_import(boards, layout):
+    """Render boards as a PBN import file.
+
+    board: {'id': str, 'dealer': 0..3, 'vul_text': str, 'hands': 4 lists of ints, 'first': 0..3,
+            'order': permutation of the 4 core tags + extras (list of indices), 'extra': [(name, value)],
+            'table': None | (name, header, [row, ...])}
+    layout: {'header': [str] (without '%'), 'header_blank': bool, 'nl': '\n'|'\r\n', 'lead': [blank lines],
+             'sep': [[blank lines] per gap], 'trail': [blank lines], 'final_nl': bool}
+    blank line = '' or a run of spaces/tabs.  Returns the text."""
+    nl = layout['nl']
+    lines = []
+    for h in layout['header']:
+        lines.append('%' + h)
+    if layout['header'] and layout['header_blank']:
+        lines.append('')
+    lines.extend(layout['lead'])
+    for i, b in enumerate(boards):
+        if i > 0:
+            lines.extend(layout['sep'][(i - 1) % len(layout['sep'])])
+        core = [('Board', b['id']), ('Dealer', SEATS[b['dealer']]), ('Vulnerable', b['vul_text']),
+                ('Deal', deal_text(b['hands'], b['first']))]
+        tags = core + list(b['extra'])
+        order = [k for k in b['order'] if k < len(tags)] + [k for k in range(len(tags)) if k not in b['order']]
+        for k in order:
+            name, value = tags[k]
+            lines.append(f'[{name} "{value}"]')
+        if b['table'] is not None:
+            name, header, rows = b['table']
+            lines.append(f'[{name} "{header}"]')
+            lines.extend(rows)
+    lines.extend(layout['trail'])
+    text = nl.join(lines)
+    if lines and layout['final_nl']:
+        text += nl
+    return text
